@@ -96,7 +96,18 @@ func ruleDesugarDebug(p *Prog, r *Report) {
 			}
 		}
 	}
-	c, leaves, oof := desugarTable(p, e, fn)
+	var c *aeCtx
+	var leaves []tabLeaf
+	var oof string
+	if fn == e.NewVer {
+		c = newAECtx(p)
+		c.stageMode = false
+		c.symArith = true
+		c.subModel = true
+		leaves, oof = c.tabulate(fn, paramArgs(fn))
+	} else {
+		c, leaves, oof = desugarTable(p, e, fn)
+	}
 	fmt.Fprintf(os.Stderr, "TAB %s: %d leaves oof=%q\n", spec, len(leaves), oof)
 	var out []string
 	for _, lf := range leaves {
@@ -120,6 +131,7 @@ func init() {
 // The table is compared with the interval the ecosystem documents for the construct.
 
 var ctorResultRe = regexp.MustCompile(`NewVersion\(.*?\)#0`)
+var ctorArgRe = regexp.MustCompile(`^NewVersion\((.*)\)#[01]`)
 
 func normTemplate(s string) string {
 	// the parsed base
@@ -340,6 +352,12 @@ var desugarSpecs = []desugarSpec{
 		}
 		if op != "==" {
 			return nil, "skip:" + op
+		}
+		// the base is the text in front of ".*", parsed as written
+		for k := range l.w.pos {
+			if m := ctorArgRe.FindStringSubmatch(k); m != nil && m[1] != `TrimSuffix(version,".*")` {
+				return nil, "the base that is parsed is not the text in front of '.*' but " + m[1] + " (its number of release segments is then not the written one)"
+			}
 		}
 		c, ok := l.cmpInt("len(V.release)", 2)
 		if !ok {
@@ -715,4 +733,8 @@ func ruleLowerDom(p *Prog, r *Report) {
 
 func init() {
 	register("C05", "", ruleLowerDom)
+}
+
+func init() {
+	// debugging aid: GVTAB=eco.NewVersion tabulates a method by name
 }
